@@ -169,7 +169,10 @@ func init() {
 		props[id].Harnesses = append(props[id].Harnesses, retrieve...)
 	}
 	props["C12"].Harnesses = append(props["C12"].Harnesses, HarnessSpec{Name: "VH_C12_routing", Replay: "native", Unwind: 400})
-	props["C09"].Harnesses = append(props["C09"].Harnesses, HarnessSpec{Name: "VH_C09_root_kinds", Replay: "native", Unwind: 400, Panics: true})
+	props["C09"].Harnesses = append(props["C09"].Harnesses, HarnessSpec{Name: "VH_C09_bare_config", Replay: "native", Unwind: 400, Panics: true})
+	for _, id := range []string{"C09", "C01", "C10"} {
+		props[id].Harnesses = append(props[id].Harnesses, HarnessSpec{Name: "VH_C09_root_kinds", Replay: "native", Unwind: 400, Panics: id == "C09"})
+	}
 	// lemma L2: the real goxmldsig verifyCertificate code (dependency half of C02), symbolic only
 	props["C02"].Harnesses = append(props["C02"].Harnesses, HarnessSpec{Name: "VL_L2_verify_certificate", Replay: "", Unwind: 400})
 	rollover := HarnessSpec{Name: "VH_C02_store_rollover", Replay: "native", Unwind: 400}
